@@ -1614,7 +1614,9 @@ class RedirectAgent:
         """
         return _urljoin(requestURI, location)
 
-    def _handleRedirect(self, response, method, uri, headers, redirectCount):
+    def _handleRedirect(
+        self, response, method, uri, headers, redirectCount, requestURI=None
+    ):
         """
         Handle a redirect response, checking the number of redirects already
         followed, and extracting the location header fields.
@@ -1630,7 +1632,12 @@ class RedirectAgent:
                 response.code, b"No location header field", uri
             )
             raise ResponseFailed([Failure(err)], response)
-        location = self._resolveLocation(uri, locationHeaders[0])
+        # A relative Location is resolved against the URI of the request which
+        # received this redirect, which after the first hop is not the
+        # original URI.
+        if requestURI is None:
+            requestURI = uri
+        location = self._resolveLocation(requestURI, locationHeaders[0])
         if headers:
             parsedURI = URI.fromBytes(uri)
             parsedLocation = URI.fromBytes(location)
@@ -1655,10 +1662,12 @@ class RedirectAgent:
 
         deferred.addCallback(_chainResponse)
         return deferred.addCallback(
-            self._handleResponse, method, uri, headers, redirectCount + 1
+            self._handleResponse, method, uri, headers, redirectCount + 1, location
         )
 
-    def _handleResponse(self, response, method, uri, headers, redirectCount):
+    def _handleResponse(
+        self, response, method, uri, headers, redirectCount, requestURI=None
+    ):
         """
         Handle the response, making another request if it indicates a redirect.
         """
@@ -1666,9 +1675,13 @@ class RedirectAgent:
             if method not in (b"GET", b"HEAD"):
                 err = error.PageRedirect(response.code, location=uri)
                 raise ResponseFailed([Failure(err)], response)
-            return self._handleRedirect(response, method, uri, headers, redirectCount)
+            return self._handleRedirect(
+                response, method, uri, headers, redirectCount, requestURI
+            )
         elif response.code in self._seeOtherResponses:
-            return self._handleRedirect(response, b"GET", uri, headers, redirectCount)
+            return self._handleRedirect(
+                response, b"GET", uri, headers, redirectCount, requestURI
+            )
         return response
 
 
